@@ -59,7 +59,9 @@ macro_rules! impl_vec1view_for_ndarray {
 
             #[inline]
             fn try_as_slice(&self) -> Option<&[T]> {
-                self.as_slice_memory_order()
+                // only a contiguous view in logical (standard) order is the sequence itself;
+                // `as_slice_memory_order` would hand out a reversed view's elements backwards
+                self.as_slice()
             }
 
             #[inline]
